@@ -47,6 +47,7 @@ type Workspace struct {
 	specFuncs map[string]*SpecSig
 	theory    map[string]*TheoryModule
 	loadErrs  []string
+	known     *KnownFile
 }
 
 func loadWorkspace(repo, verif string, patterns []string) (*Workspace, error) {
